@@ -30,6 +30,27 @@ func main() {
 			panic(err)
 		}
 		devHooks["ssa"](v, os.Args[2:])
+	case "extcalls":
+		// external static callees of module code and whether std.spec gives them a contract
+		v, err := LoadVerifier("/repo", "/verif/deps")
+		if err != nil {
+			panic(err)
+		}
+		sites := v.callSites(func(n string) bool { return !strings.HasPrefix(strings.TrimLeft(n, "(*"), modulePath) })
+		var names []string
+		for n := range sites {
+			names = append(names, n)
+		}
+		sort.Strings(names)
+		for _, n := range names {
+			has := "-"
+			for _, fc := range v.cs.Funcs {
+				if fc.Assumed && strings.HasSuffix(strings.NewReplacer("(", "", ")", "", "*", "").Replace(n), strings.NewReplacer("(", "", ")", "", "*", "").Replace(fc.Pkg+"."+fc.Name)) {
+					has = "contract"
+				}
+			}
+			fmt.Printf("%-9s %-60s %d sites\n", has, n, len(sites[n]))
+		}
 	case "check":
 		os.Exit(checkMain(os.Args[2:]))
 	default:
